@@ -1,7 +1,7 @@
 (** Property C01 — theorems only.  [run] is the reference semantics (Core.Sem); the extracted [run] is
     the oracle of the failing-input search in harness/props/C01.py. *)
 From Coq Require Import ZArith List Bool.
-From Core Require Import Syntax Sem Equiv PartialEval PartialEvalSound Subst RewriteAt ShiftLoop DivideLoop FissionFuse.
+From Core Require Import Syntax Sem Equiv PartialEval PartialEvalSound Subst RewriteAt ShiftLoop DivideLoop FissionFuse ReorderLoops.
 Import ListNotations.
 Local Open Scope Z_scope.
 
@@ -243,3 +243,20 @@ Proof.
            (ShiftLoop.rule_rename_iter i i2 mid hi body par Hok Hnm) st st' H1).
 Qed.
 Print Assumptions C01_cut_loop_fresh.
+
+(** reorder_loops: under the contract of the implementation's effect check (Check_ReorderLoops) -- the body instances
+    whose relative order flips, (a, b) and (a', b') with a < a' and b' < b, commute -- and with bounds that do not
+    depend on the other iterator, the transposed nest computes what the original nest computes.  The order of the
+    two bindings in the environment is irrelevant (instance of C01_substitution with the identity substitution). *)
+Theorem C01_reorder_loops : forall i j body li hi lj hj pi pj st st' vli vhi vlj vhj,
+  i <> j ->
+  env_only li = true -> env_only hi = true -> env_only lj = true -> env_only hj = true ->
+  Rules.mentions i lj = false -> Rules.mentions i hj = false -> Rules.mentions j li = false -> Rules.mentions j hi = false ->
+  eval st li = Ok (VInt vli) -> eval st hi = Ok (VInt vhi) -> eval st lj = Ok (VInt vlj) -> eval st hj = Ok (VInt vhj) ->
+  vli <= vhi -> vlj <= vhj ->
+  ReorderLoops.reorder_contract i j body vli vhi vlj vhj ->
+  forallb (Subst.okbind (ReorderLoops.okbS j)) body = true -> forallb (Subst.nm_s j (fun _ => false)) body = true ->
+  exec_list [For i li hi [For j lj hj body pj] pi] st = Ok st' ->
+  exec_list [For j lj hj [For i li hi body pi] pj] st = Ok st'.
+Proof. exact ReorderLoops.rule_reorder_loops. Qed.
+Print Assumptions C01_reorder_loops.
